@@ -38,6 +38,8 @@ impl EvaluatedTx {
         locktime: u32,
         version_id: u8,
     ) -> Self {
+        #[cfg(feature = "verif-sim")]
+        crate::common::simio::par_point(1, locktime as u64);
         // Evaluate and wrap all outputs to process them later
         let outputs = outputs
             .into_par_iter()
@@ -183,6 +185,8 @@ pub struct EvaluatedTxOut {
 impl EvaluatedTxOut {
     #[inline]
     pub fn eval_script(out: TxOutput, version_id: u8) -> EvaluatedTxOut {
+        #[cfg(feature = "verif-sim")]
+        crate::common::simio::par_point(2, out.value);
         EvaluatedTxOut {
             script: script::eval_from_bytes(&out.script_pubkey, version_id),
             out,
